@@ -55,45 +55,180 @@ def prop_str(s: str) -> bool:
     return _color_ok(s)
 
 
-def prop_str_hsl(s: str) -> bool:
+def prop_tpl_hsl_open(s: str) -> bool:
     """
     pre: len(s) <= 3
     post: _
     """
-    return _color_ok("hsl(" + s + ")") and _color_ok("hsla(" + s + ")")
+    return _color_ok('hsl(' + s + ')')
 
 
-def prop_str_hsl_commas(a: str, b: str, c: str) -> bool:
-    """
-    pre: len(a) <= 2 and len(b) <= 2 and len(c) <= 2
-    post: _
-    """
-    return _color_ok("hsl(" + a + "," + b + "," + c + ")") and _color_ok("hsla(" + a + "," + b + "," + c + ",1)")
-
-
-def prop_str_rgb(s: str) -> bool:
+def prop_tpl_hsla_open(s: str) -> bool:
     """
     pre: len(s) <= 3
     post: _
     """
-    return _color_ok("rgb(" + s + ")") and _color_ok("rgba(" + s + ")") and _color_ok("rgb(" + s)
+    return _color_ok('hsla(' + s + ')')
 
 
-def prop_str_rgb_commas(a: str, b: str, c: str) -> bool:
-    """
-    pre: len(a) <= 2 and len(b) <= 2 and len(c) <= 2
-    post: _
-    """
-    return _color_ok("rgb(" + a + "," + b + "," + c + ")") and _color_ok(a + "," + b + "," + c) and _color_ok("rgba(" + a + "," + b + "," + c + ",0.5)")
-
-
-def prop_str_misc(s: str) -> bool:
+def prop_tpl_hsl_h(s: str) -> bool:
     """
     pre: len(s) <= 3
     post: _
     """
-    return (_color_ok("#" + s) and _color_ok(s + "%") and _color_ok("var(" + s + ")") and _color_ok("(" + s + ")")
-            and _color_ok(s + " " + s) and _color_ok("-" + s) and _color_ok(s + "e9"))
+    return _color_ok('hsl(' + s + ',50%,50%)')
+
+
+def prop_tpl_hsl_s(s: str) -> bool:
+    """
+    pre: len(s) <= 3
+    post: _
+    """
+    return _color_ok('hsl(120,' + s + ',50%)')
+
+
+def prop_tpl_hsl_l(s: str) -> bool:
+    """
+    pre: len(s) <= 3
+    post: _
+    """
+    return _color_ok('hsl(120,50%,' + s + ')')
+
+
+def prop_tpl_hsla_a(s: str) -> bool:
+    """
+    pre: len(s) <= 3
+    post: _
+    """
+    return _color_ok('hsla(120,50%,50%,' + s + ')')
+
+
+def prop_tpl_hsla_h(s: str) -> bool:
+    """
+    pre: len(s) <= 3
+    post: _
+    """
+    return _color_ok('hsla(' + s + ',50%,50%,0.5)')
+
+
+def prop_tpl_rgb_open(s: str) -> bool:
+    """
+    pre: len(s) <= 3
+    post: _
+    """
+    return _color_ok('rgb(' + s + ')')
+
+
+def prop_tpl_rgba_open(s: str) -> bool:
+    """
+    pre: len(s) <= 3
+    post: _
+    """
+    return _color_ok('rgba(' + s + ')')
+
+
+def prop_tpl_rgb_unclosed(s: str) -> bool:
+    """
+    pre: len(s) <= 3
+    post: _
+    """
+    return _color_ok('rgb(' + s + '')
+
+
+def prop_tpl_rgb_r(s: str) -> bool:
+    """
+    pre: len(s) <= 3
+    post: _
+    """
+    return _color_ok('rgb(' + s + ',0,0)')
+
+
+def prop_tpl_rgb_g(s: str) -> bool:
+    """
+    pre: len(s) <= 3
+    post: _
+    """
+    return _color_ok('rgb(0,' + s + ',0)')
+
+
+def prop_tpl_rgba_a(s: str) -> bool:
+    """
+    pre: len(s) <= 3
+    post: _
+    """
+    return _color_ok('rgba(0,0,0,' + s + ')')
+
+
+def prop_tpl_informal(s: str) -> bool:
+    """
+    pre: len(s) <= 3
+    post: _
+    """
+    return _color_ok('1,' + s + ',3')
+
+
+def prop_tpl_rgb_pct(s: str) -> bool:
+    """
+    pre: len(s) <= 3
+    post: _
+    """
+    return _color_ok('rgb(' + s + '%,0%,0%)')
+
+
+def prop_tpl_hash(s: str) -> bool:
+    """
+    pre: len(s) <= 3
+    post: _
+    """
+    return _color_ok('#' + s + '')
+
+
+def prop_tpl_percent(s: str) -> bool:
+    """
+    pre: len(s) <= 3
+    post: _
+    """
+    return _color_ok('' + s + '%')
+
+
+def prop_tpl_var(s: str) -> bool:
+    """
+    pre: len(s) <= 3
+    post: _
+    """
+    return _color_ok('var(' + s + ')')
+
+
+def prop_tpl_paren(s: str) -> bool:
+    """
+    pre: len(s) <= 3
+    post: _
+    """
+    return _color_ok('(' + s + ')')
+
+
+def prop_tpl_space(s: str) -> bool:
+    """
+    pre: len(s) <= 3
+    post: _
+    """
+    return _color_ok('1 ' + s + ' 3')
+
+
+def prop_tpl_minus(s: str) -> bool:
+    """
+    pre: len(s) <= 3
+    post: _
+    """
+    return _color_ok('-' + s + '')
+
+
+def prop_tpl_exp(s: str) -> bool:
+    """
+    pre: len(s) <= 3
+    post: _
+    """
+    return _color_ok('' + s + 'e9')
 
 
 def prop_tuple0() -> bool:
@@ -174,12 +309,15 @@ def prop_pair_tuple3(a: Elem, b: Elem, c: Elem) -> bool:
     return _pair_ok((a, b, c), "#ffffff") and _pair_ok("#000000", (a, b, c))
 
 
-def prop_float_special(k: int) -> bool:
+def _special(v) -> bool:
+    return (_color_ok((v, 0, 0)) and _color_ok((0, v, 0)) and _color_ok((0.5, v, v)) and _color_ok((v, v, v, v))
+            and _color_ok((10, 20, 30, v)) and _color_ok((200, v, 0.5)) and _color_ok([v, 0.5, 0.5, 0.5])
+            and _pair_ok((v, v, v), "#fff") and _pair_ok("#000", (1, 2, 3, v)))
+
+
+def prop_ground_float_specials() -> bool:
     """
-    pre: 0 <= k < 6
+    Ground cases (no symbolic argument): CrossHair's real-based symbolic floats do not range over nan/inf.
     post: _
     """
-    specials = [float("nan"), float("inf"), float("-inf"), -0.0, 1e308, -1e-308]
-    v = specials[k]
-    return (_color_ok((v, 0, 0)) and _color_ok((0, v, 0)) and _color_ok((0.5, v, v)) and _color_ok((v, v, v, v))
-            and _color_ok((10, 20, 30, v)) and _color_ok((200, v, 0.5)) and _color_ok([v, 0.5, 0.5, 0.5]))
+    return all(_special(v) for v in (float("nan"), float("inf"), float("-inf"), -0.0, 1e308, -1e-308, 5e-324))
